@@ -13,6 +13,7 @@ import (
 	"sort"
 	"strconv"
 	"strings"
+	"sync"
 	"sync/atomic"
 	"syscall"
 	"testing"
@@ -48,10 +49,15 @@ type c03Case struct {
 
 func genC03(t *rapid.T) c03Case {
 	f := false
-	c := c03Case{H: tsdbrun.GenHistory(t, tsdbrun.Bias{MinSteps: 15, MaxSteps: 45, NoDeletes: true, Compactions: 3, Simple: true, Snapshot: &f})}
-	n := 5
+	// half of the workloads contain deletions (and tombstone cleaning / out-of-order compaction)
+	noDel := rapid.Bool().Draw(t, "nodeletes")
+	c := c03Case{H: tsdbrun.GenHistory(t, tsdbrun.Bias{MinSteps: 15, MaxSteps: 45, NoDeletes: noDel, Deletes: 6, Compactions: 3, Simple: true, Snapshot: &f,
+		// two in five workloads start after 3 to 5 head compactions, so that WAL checkpointing,
+		// checkpoint deletion and block compaction are among the places the child is killed at
+		Prelude: rapid.SampledFrom([]int{0, 0, 0, 3, 5}).Draw(t, "prelude")})}
+	n := 6
 	if ev.Thorough() {
-		n = 14
+		n = 16
 	}
 	for i := 0; i < n; i++ {
 		c.Kills = append(c.Kills, float64(rapid.IntRange(1, 10000).Draw(t, "kill"))/10000)
@@ -112,16 +118,30 @@ func TestC03Child(t *testing.T) {
 	killAt, _ := strconv.ParseInt(os.Getenv("VERIF_CRASH_N"), 10, 64)
 	ack := os.Getenv("VERIF_CRASH_ACK")
 	var count atomic.Int64
-	verifhook.Set(func(string) {
-		if c := count.Add(1); killAt > 0 && c == killAt {
+	var mu sync.Mutex
+	var sites []string
+	verifhook.Set(func(site string) {
+		c := count.Add(1)
+		if killAt > 0 && c == killAt {
 			syscall.Kill(os.Getpid(), syscall.SIGKILL)
 			select {}
+		}
+		if killAt == 0 {
+			// counting pass: remember which site every hit belongs to (hits can come from
+			// background goroutines, the order of the list is the order of the counter)
+			mu.Lock()
+			for int64(len(sites)) < c {
+				sites = append(sites, "")
+			}
+			sites[c-1] = site
+			mu.Unlock()
 		}
 	})
 	r, err := tsdbrun.StartDir(h, &ev.Rec{}, os.Getenv("VERIF_CRASH_DIR"))
 	if err != nil {
 		os.Exit(3)
 	}
+	base := count.Load()
 	for i, op := range h.Ops {
 		if err := r.Exec(op); err != nil {
 			os.Exit(3) // the workload itself misbehaved: C01/C02 business, not a crash verdict
@@ -136,8 +156,21 @@ func TestC03Child(t *testing.T) {
 	}
 	l := snapshot(r, len(h.Ops)-1)
 	l.Total, l.Closed = count.Load(), true
+	if f := os.Getenv("VERIF_CRASH_SITES"); f != "" && killAt == 0 {
+		mu.Lock()
+		b, _ := json.Marshal(siteList{Base: base, Sites: sites})
+		mu.Unlock()
+		os.WriteFile(f, b, 0o644)
+	}
 	writeAck(ack, l)
 	os.Exit(0)
+}
+
+// siteList is what the counting pass reports: the hook site of every hit, and the number of
+// hits that happened before the first operation of the workload (opening the empty database).
+type siteList struct {
+	Base  int64
+	Sites []string
 }
 
 type childResult struct {
@@ -157,7 +190,7 @@ func runChild(base string, h tsdbrun.History, killAt int64, tag string) (string,
 	ack := filepath.Join(base, "ack-"+tag)
 	cmd := exec.Command(os.Args[0], "-test.run", "^TestC03Child$", "-test.count", "1")
 	cmd.Env = append(os.Environ(), "VERIF_CRASH_CHILD=1", "VERIF_CRASH_CASE="+casef, "VERIF_CRASH_DIR="+dir,
-		"VERIF_CRASH_N="+strconv.FormatInt(killAt, 10), "VERIF_CRASH_ACK="+ack, "VERIF_OUT=", "VERIF_REPLAY=")
+		"VERIF_CRASH_N="+strconv.FormatInt(killAt, 10), "VERIF_CRASH_ACK="+ack, "VERIF_CRASH_SITES="+filepath.Join(base, "sites-"+tag), "VERIF_OUT=", "VERIF_REPLAY=")
 	done := make(chan error, 1)
 	if err := cmd.Start(); err != nil {
 		return dir, childResult{}, err
@@ -225,10 +258,50 @@ func runC03(c c03Case, rec *ev.Rec) error {
 		return nil
 	}
 	rec.Count("hook-hits", int(total))
+	// Kill points. Even-numbered draws are uniform over the hits of the workload proper (hits
+	// while the empty database is being opened are left to one draw in eight); odd-numbered
+	// draws go through the distinct hook sites the workload passed, rarest first, and pick one
+	// occurrence of that site, so that sites hit once or twice per workload (checkpoint rename,
+	// block rename, WAL truncation, tombstone file) are killed at as often as WAL page writes.
+	var sl siteList
+	if b, err := os.ReadFile(filepath.Join(base, "sites-count")); err == nil {
+		_ = json.Unmarshal(b, &sl)
+	}
+	bySite := map[string][]int64{}
+	for i, s := range sl.Sites {
+		if int64(i) >= sl.Base && s != "" {
+			bySite[s] = append(bySite[s], int64(i)+1)
+		}
+	}
+	var siteNames []string
+	for s := range bySite {
+		siteNames = append(siteNames, s)
+	}
+	sort.Slice(siteNames, func(i, j int) bool {
+		if len(bySite[siteNames[i]]) != len(bySite[siteNames[j]]) {
+			return len(bySite[siteNames[i]]) < len(bySite[siteNames[j]])
+		}
+		return siteNames[i] < siteNames[j]
+	})
+	rec.Count("distinct-sites", len(siteNames))
+	for s, occ := range bySite {
+		rec.Count("hits:"+s, len(occ))
+	}
 	seen := map[int64]bool{}
 	nontrivial := false
 	for ki, frac := range c.Kills {
-		n := int64(math.Ceil(frac * float64(total)))
+		var n int64
+		switch {
+		case ki%2 == 1 && len(siteNames) > 0:
+			occ := bySite[siteNames[(ki/2)%len(siteNames)]]
+			n = occ[int(frac*float64(len(occ)))%len(occ)]
+			rec.Class("kill-by-site")
+			rec.Class("site:" + siteNames[(ki/2)%len(siteNames)])
+		case ki%8 != 0 && sl.Base > 0 && sl.Base < total:
+			n = sl.Base + int64(math.Ceil(frac*float64(total-sl.Base)))
+		default:
+			n = int64(math.Ceil(frac * float64(total)))
+		}
 		if n < 1 {
 			n = 1
 		}
@@ -267,6 +340,55 @@ func runC03(c c03Case, rec *ev.Rec) error {
 		}
 		rec.Class("inflight:" + inflightKind)
 		desc := fmt.Sprintf("killed at hook hit %d of %d, %d operations acknowledged, in flight: %s", n, total, acked.I+1, inflightKind)
+		// Model-based comparison: the acknowledged prefix is executed again in this process to
+		// rebuild the reference model, which then adopts the directory the killed child left.
+		// Deletions are judged here (a sample covered by an acknowledged deletion must not come
+		// back; the range of a deletion in flight may or may not be applied).
+		hasDelete := false
+		for j := 0; j <= acked.I+1 && j < len(c.H.Ops); j++ {
+			if c.H.Ops[j].K == "delete" {
+				hasDelete = true
+			}
+		}
+		if r2, err := tsdbrun.Start(c.H, &ev.Rec{}); err == nil {
+			ok := true
+			for j := 0; j <= acked.I; j++ {
+				if err := r2.Exec(c.H.Ops[j]); err != nil {
+					ok = false
+					break
+				}
+			}
+			if !ok {
+				r2.Finish()
+				rec.Class("prefix-not-reproducible")
+				continue
+			}
+			var infl *tsdbrun.Op
+			if acked.I+1 < len(c.H.Ops) {
+				infl = &c.H.Ops[acked.I+1]
+			}
+			if err := r2.AdoptCrashed(dir, infl); err != nil {
+				r2.DB = nil
+				r2.Dir = ""
+				return ev.Failf("%s: %v\nworkload: %s", desc, err, opsString(c.H, acked.I+1))
+			}
+			err := r2.CheckAll("crashreopen")
+			cerr := r2.DB.Close()
+			r2.DB, r2.Dir = nil, "" // the directory stays for the checks below
+			if err != nil {
+				var fe *ev.Violation
+				if errors.As(err, &fe) && fe.Sig != "" {
+					return ev.FailSig(fe.Sig, "%s: %v", desc, err)
+				}
+				return ev.Failf("%s: after the crash the database differs from the acknowledged history: %v", desc, err)
+			}
+			if cerr != nil {
+				return ev.Failf("%s: Close after recovery: %v", desc, cerr)
+			}
+			if hasDelete {
+				rec.Class("crash-runs-with-delete")
+			}
+		}
 		db, oerr := tsdb.Open(dir, promslog.NewNopLogger(), prometheus.NewRegistry(), c.H.Cfg.Options(), nil)
 		if oerr != nil {
 			return ev.Failf("%s: tsdb.Open after the crash failed: %v\nworkload: %s", desc, oerr, opsString(c.H, acked.I+1))
@@ -293,39 +415,43 @@ func runC03(c c03Case, rec *ev.Rec) error {
 				}
 			}
 		}
-		ackedPts := map[string]ackPoint{}
-		for _, p := range acked.Pts {
-			ackedPts[fmt.Sprintf("%d/%d", p.S, p.T)] = p
-		}
-		var keys []string
-		for k := range ackedPts {
-			keys = append(keys, k)
-		}
-		sort.Strings(keys)
-		for _, k := range keys {
-			p := ackedPts[k]
-			o, ok := have[k]
-			if p.Required && !ok {
-				db.Close()
-				if p.T < acked.Risk {
-					return ev.FailSig(tsdbrun.SigMixedBound, "%s: acknowledged sample series %d t=%d is missing after the crash (below the bound of a merged out-of-order block)", desc, p.S, p.T)
+		// Ack-file comparison (independent of the re-execution above); it knows nothing of the
+		// listed delete findings, so workloads with a delete are judged by the model alone.
+		if !hasDelete {
+			ackedPts := map[string]ackPoint{}
+			for _, p := range acked.Pts {
+				ackedPts[fmt.Sprintf("%d/%d", p.S, p.T)] = p
+			}
+			var keys []string
+			for k := range ackedPts {
+				keys = append(keys, k)
+			}
+			sort.Strings(keys)
+			for _, k := range keys {
+				p := ackedPts[k]
+				o, ok := have[k]
+				if p.Required && !ok {
+					db.Close()
+					if p.T < acked.Risk {
+						return ev.FailSig(tsdbrun.SigMixedBound, "%s: acknowledged sample series %d t=%d is missing after the crash (below the bound of a merged out-of-order block)", desc, p.S, p.T)
+					}
+					return ev.Failf("%s: acknowledged sample series %d t=%d %v is missing after the crash\nworkload: %s", desc, p.S, p.T, p.Vals, opsString(c.H, acked.I+1))
 				}
-				return ev.Failf("%s: acknowledged sample series %d t=%d %v is missing after the crash\nworkload: %s", desc, p.S, p.T, p.Vals, opsString(c.H, acked.I+1))
+				if ok && !obsMatches(o, append(append([]tm.Val{}, p.Vals...), inflight[k]...)) {
+					db.Close()
+					return ev.Failf("%s: sample series %d t=%d reads back as %v, acknowledged values are %v\nworkload: %s", desc, p.S, p.T, o, p.Vals, opsString(c.H, acked.I+1))
+				}
 			}
-			if ok && !obsMatches(o, append(append([]tm.Val{}, p.Vals...), inflight[k]...)) {
+			for k, o := range have {
+				if _, ok := ackedPts[k]; ok {
+					continue
+				}
+				if vals, ok := inflight[k]; ok && obsMatches(o, vals) {
+					continue
+				}
 				db.Close()
-				return ev.Failf("%s: sample series %d t=%d reads back as %v, acknowledged values are %v\nworkload: %s", desc, p.S, p.T, o, p.Vals, opsString(c.H, acked.I+1))
+				return ev.Failf("%s: sample %s=%v is returned after the crash but was neither acknowledged nor part of the commit in flight\nworkload: %s", desc, k, o, opsString(c.H, acked.I+1))
 			}
-		}
-		for k, o := range have {
-			if _, ok := ackedPts[k]; ok {
-				continue
-			}
-			if vals, ok := inflight[k]; ok && obsMatches(o, vals) {
-				continue
-			}
-			db.Close()
-			return ev.Failf("%s: sample %s=%v is returned after the crash but was neither acknowledged nor part of the commit in flight\nworkload: %s", desc, k, o, opsString(c.H, acked.I+1))
 		}
 		// the database keeps working: two more commits survive a clean restart
 		if hm := db.Head().MaxTime(); hm > maxT {
@@ -405,6 +531,6 @@ func TestC03(t *testing.T) {
 		t.Skip("child process")
 	}
 	ev.Check(t, "C03",
-		"a workload (one appender at a time: appends of floats and histograms in and out of order, commits, rollbacks, db.Compact, head flush, m-mapping; WAL segment 32 KiB) runs in a child process that is killed with SIGKILL at a drawn hook hit out of all hook sites it passes (WAL page write before/after, segment creation, checkpoint rename, block meta/rename, block deletion, commit steps, head/WAL truncation steps); acknowledged operations are read from an ack file written with one write(2) per returned operation. After the kill the directory must open, return every acknowledged sample with its value, return nothing that was neither acknowledged nor part of the commit in flight, accept two more commits and keep them across a clean restart. Non-trivial: the kill happened and at least one commit was acknowledged before it.",
+		"a workload (one appender at a time: appends of floats and histograms in and out of order, commits, rollbacks, db.Compact, head flush, m-mapping, and in half of the workloads deletions, tombstone cleaning and out-of-order compaction; two in five workloads start after 3-5 head compactions so that WAL checkpointing is reached; WAL segment 32 KiB) runs in a child process that is killed with SIGKILL at a drawn hook hit: half of the kills uniform over the hits of the workload, half stratified by hook site, rarest first (WAL page write before/after, segment creation, checkpoint rename, block meta/rename, block deletion, commit steps, head/WAL truncation steps). Acknowledged operations are read from an ack file written with one write(2) per returned operation. After the kill the directory must open; the acknowledged prefix is executed again in-process to rebuild the reference model, which adopts the crashed directory (samples of a commit in flight and samples covered by a delete in flight are optional): every acknowledged sample must be returned with its value, nothing deleted, rejected, rolled back or never appended may be returned; without deletions the same is checked a second time from the ack file alone; two more commits must be accepted and survive a clean restart. Non-trivial: the kill happened and at least one commit was acknowledged before it.",
 		genC03, runC03)
 }
